@@ -68,6 +68,14 @@ def base_instance(rng, *, vtype=None, k=None, N=None, hermitian_mode=True, fdkin
     vtype = vtype or rng.choice(["sympy", "sympy", "numpy", "numpy_complex", "sparse"])
     for _ in range(60):
         try:
+            if corner == "selective_last":
+                # a selective (dict) mask on ONE block of several, keeping an element between non-degenerate levels
+                sizes = rng.choice([[1, 3], [2, 3], [1, 1, 3], [3, 3]])
+                inst = hermitian.gen_instance(rng, vtype=vtype, k=k, N=N, d=sum(sizes), sizes=sizes,
+                                              hermitian=hermitian_mode, corner=corner, shuffle=False)
+                inst["format"] = rng.choice(FORMATS)
+                inst["symnames"] = ["q", "a", "m", "z"]
+                return inst
             if corner == "degenerate_fd":
                 sizes = rng.choice([[3, 1], [1, 3], [3, 2], [4, 1], [2, 3]])
                 inst = hermitian.gen_instance(rng, vtype=vtype, k=k, N=N, d=sum(sizes), sizes=sizes,
@@ -203,13 +211,24 @@ def pair_vanishing(rng):
 
 # ---- C15 ----------------------------------------------------------------------
 def pair_relabel(rng):
-    A = base_instance(rng, d=rng.choice([3, 4, 5]), corner="degenerate_fd" if rng.random() < 0.4 else None)
+    A = base_instance(rng, d=rng.choice([3, 4, 5]), corner=rng.choice(["degenerate_fd", "selective_last", "selective_last", "selective_last", None]))
     nb = len(A["sizes"])
     if nb < 2:
         raise Regenerate("one block")
     sigma = list(range(nb))
     while sigma == list(range(nb)):
         rng.shuffle(sigma)
+    if A["fdkind"] == "dict" and len(A["fd_blocks"]) == 1 and A["fd_blocks"][0] != 0:
+        # a single masked block that is not block 0: relabel it to block 0 (label-dependent handling of
+        # the mask dictionary shows as a difference between the two labellings)
+        b0 = A["fd_blocks"][0]
+        rest = [x for x in range(nb) if x != b0]
+        tgt = list(range(1, nb))
+        rng.shuffle(tgt)
+        sigma = [0] * nb
+        for x, t_ in zip(rest, tgt):
+            sigma[x] = t_
+        sigma[b0] = 0
     B = copy.deepcopy(A)
     B["sub_idx"] = [sigma[b] for b in A["sub_idx"]]
     B["sizes"] = [0] * nb
